@@ -100,6 +100,15 @@ func ruleC15e(c *Ctx) []*report.Result {
 		}
 	}
 	for _, e := range eventsOf(a.It, "uncapture") {
+		// the verb is a modelled constant only in the runs rooted at the
+		// verb-taking functions ('w' / any other verb, every state of the pair);
+		// in a run that comes through the format loop the verb is unknown and two
+		// tests of it are not correlated: those events prove nothing, and every
+		// state they could stand for is covered by the rooted runs
+		viaLoop := e.Detail["via"] == "loop"
+		if viaLoop {
+			continue
+		}
 		if capturers[e.Fn] {
 			r.Ok("the dispatcher's own rejection at " + c.P.Pos(e.Instr.Pos()) + " [" + e.Detail["cfg"] + "]")
 			continue
